@@ -10,6 +10,38 @@ SRC = [('control_source','debian-control/src/lossy/control.rs','Source'), ('cont
        ('buildinfo','debian-control/src/lossy/buildinfo.rs','Buildinfo'), ('removal','debian-control/src/lossy/ftpmaster.rs','Removal'),
        ('copyright_header','debian-copyright/src/lossy.rs','Header'), ('copyright_files','debian-copyright/src/lossy.rs','FilesParagraph'), ('copyright_license','debian-copyright/src/lossy.rs','LicenseParagraph'),
        ('dep3','dep3/src/lossy.rs','PatchHeader'), ('repository','apt-sources/src/lib.rs','Repository')]
+def samples(role, name, ty, custom):
+    """first element: the canonical sample used at every tier; further elements: alternative canonical values
+       (selected by the model's value-sample index vs; fields without alternatives keep the first)."""
+    first = sample(role, name, ty, custom)
+    t = ty.replace(' ', '')
+    inner = re.sub(r'^Option<(.*)>$', r'\1', t)
+    alt = []
+    if name == 'Description': alt = ['only a summary', 'summary\\n .\\n after an empty line']
+    elif name == 'Files': alt = ['*', 'src/*.c\\nsrc/?.h\\ndebian/*']
+    elif name == 'Copyright': alt = ['2020 A', '2019-2021 A <a@example.com>\\n2021 B']
+    elif name == 'Files-Excluded': alt = ['a', 'a/*\\nb?c']
+    elif name == 'Package-List': alt = ['\\nfoo deb libs optional arch=any', '\\nfoo deb libs optional arch=any\\nbar udeb debian-installer optional arch=linux-any profile=!stage1']
+    elif name == 'Origin' and role == 'dep3': alt = ['vendor', 'backport, https://example.com/c/1']
+    elif name == 'Types': alt = ['deb deb-src', 'deb-src']
+    elif name == 'URIs': alt = ['https://deb.debian.org/debian https://example.org/debian', 'http://example.org/x']
+    elif name == 'Format' and role == 'copyright_header': alt = []
+    elif 'Relations' in inner: alt = ['a', 'a:native (<< 2~) | b [!amd64 !i386], c <a !b> <c>']
+    elif 'Url' in inner: alt = ['http://example.org/', 'https://example.com/a/b?q=1#frag']
+    elif 'ParsedVcs' in inner: alt = ['https://salsa.debian.org/x/y.git', 'https://salsa.debian.org/x/y.git -b main']
+    elif 'Priority' in inner: alt = ['required', 'extra']
+    elif 'MultiArch' in inner: alt = ['same', 'allowed']
+    elif 'YesNoForce' in inner: alt = ['yes', 'no']
+    elif 'License' in inner: alt = (['MIT\\ntext'] if role == 'copyright_license' else ['MIT'])
+    elif 'Forwarded' in inner: alt = ['no', 'https://example.com/b/1']
+    elif 'AppliedUpstream' in inner: alt = ['1.2.3']
+    elif 'NaiveDate' in inner: alt = ['1999-12-31']
+    elif 'Version' in inner: alt = ['1.0', '2:3~~a+b-0.1']
+    elif 'PathBuf' in inner: alt = ['/b']
+    elif inner == 'bool': alt = ['no' if custom else 'false']
+    elif inner in ('usize', 'u32'): alt = ['0', '4294967295' if inner == 'u32' else '1']
+    elif inner.startswith('Vec<') or inner.startswith('HashSet<'): alt = ['a', 'a b c']
+    return [first] + alt
 def sample(role, name, ty, custom):
     t = ty.replace(' ', '')
     inner = re.sub(r'^Option<(.*)>$', r'\1', t)
@@ -61,7 +93,7 @@ for role, f, struct in SRC:
             fld = re.search(r'field\s*=\s*"([^"]+)"', attrs)
             name = fld.group(1) if fld else ident
             custom = 'with' in attrs
-            fields.append((name, not ty.replace(' ', '').startswith('Option<'), sample(role, name, ty, custom)))
+            fields.append((name, not ty.replace(' ', '').startswith('Option<'), samples(role, name, ty, custom)))
         i += 1
     tables.append((role, fields))
 with open('/verif/spec/TypedTables.tla', 'w') as o:
@@ -70,9 +102,9 @@ with open('/verif/spec/TypedTables.tla', 'w') as o:
     o.write('Roles == [\n' + ',\n'.join('  %s |-> [nf |-> %d, mand |-> {%s}]' % (r, len(fs), ', '.join(str(i + 1) for i, x in enumerate(fs) if x[1])) for r, fs in tables) + ' ]\n')
     o.write('=============================================================================\n')
 with open('/verif/harness/src/stages/typed_tables.rs', 'w') as o:
-    o.write('// GENERATED by tools/gen_typed_tables.py: (field name, mandatory, canonical sample value) per paragraph role, in declaration order.\n')
-    o.write('pub fn table(role: &str) -> &\'static [(&\'static str, bool, &\'static str)] {\n    match role {\n')
+    o.write('// GENERATED by tools/gen_typed_tables.py: (field name, mandatory, canonical sample values) per paragraph role, in declaration order.\n')
+    o.write('pub fn table(role: &str) -> &\'static [(&\'static str, bool, &\'static [&\'static str])] {\n    match role {\n')
     for r, fs in tables:
-        o.write('        "%s" => &[%s],\n' % (r, ', '.join('("%s", %s, "%s")' % (n, 'true' if m else 'false', v.replace('"', '\\"')) for n, m, v in fs)))
+        o.write('        "%s" => &[%s],\n' % (r, ', '.join('("%s", %s, &[%s])' % (n, 'true' if m else 'false', ', '.join('"%s"' % v.replace('"', '\\"') for v in vs)) for n, m, vs in fs)))
     o.write('        _ => &[],\n    }\n}\n')
 for r, fs in tables: print(r, len(fs), [n for n, m, v in fs if m])
